@@ -648,3 +648,30 @@ impl Stream for ReadStream {
         f
     }
 }
+
+// ---------------------------------------------------------------------------------------------
+/// `eocdwin`: the end-record search window at its limits (comment + trailing bytes of 65 514 … 65 536
+/// bytes).  Separate from `read` because each case costs the list-based model several seconds.
+pub struct EocdWin;
+
+impl Stream for EocdWin {
+    fn name(&self) -> &'static str { "eocdwin" }
+
+    fn gen(&self, _seed: u64, tier: &str) -> GenOut {
+        let mut g = GenOut::default();
+        g.rule = "one-entry archives whose end record lies at the far end of the 65 557-byte search window: comment lengths 65 514 / 65 515 / 65 534 / 65 535, comment + trailing garbage summing to 65 535, and one byte more (record outside the window: must be an error). non-trivial = the archive opens".into();
+        let cases: &[(usize, usize)] = if tier == "thorough" { &[(65535, 0), (65534, 0), (65515, 0), (65514, 0), (100, 65435), (0, 65535), (65535, 1), (100, 65436)] } else { &[(65535, 0), (65515, 0), (100, 65435), (65535, 1)] };
+        for &(clen, tr) in cases {
+            let mut l = Layout::new(vec![Entry::stored(b"a", b"hello")]);
+            l.comment = vec![b'c'; clen];
+            l.trailing = vec![0u8; tr];
+            let b = mkzip::build(&l);
+            let exp = if clen + tr <= 65535 { format!(" expect=1;0;{};61:0:{}:5", hex(&l.comment), crc32fast::hash(b"hello")) } else { String::new() };
+            g.push("window", format!("read.seek bytes={} codec=-{exp}", hex(&b.bytes)));
+        }
+        g
+    }
+    fn run(&self, line: &str) -> String { ReadStream.run(line) }
+    fn nontrivial(&self, line: &str, resp: &str) -> bool { ReadStream.nontrivial(line, resp) }
+    fn oracle(&self, line: &str, resp: &str) -> Vec<OracleFailure> { ReadStream.oracle(line, resp) }
+}
